@@ -360,6 +360,7 @@ pub fn exec_op(ctx: &Arc<Ctx>, op: &Op, caller: usize, nested: bool, local: &mut
             for w in ws { w.wake(); }
             return;
         }
+        Op::ChainClose(_, _) => { return; }
         Op::Open(g) => { let gt = &ctx.gates[*g]; *gt.open.lock().unwrap() = true; gt.cv.notify_all(); return; }
         Op::DropObj(q) => {
             desync::verif::log("api", "DROPOBJ", *q, String::new()); let o = ctx.objs[*q].lock().unwrap().take(); drop(o);
@@ -498,7 +499,12 @@ pub fn exec_op(ctx: &Arc<Ctx>, op: &Op, caller: usize, nested: bool, local: &mut
         Op::PipeIn(q, k) => {
             let obj = match ctx.obj(*q) { Some(o) => o, None => return };
             let (c2, k2, q2) = (ctx.clone(), *k, *q);
+            // chained pipes: this closure may own the producer side of another stream, which ends when the closure is released
+            struct Closer(Arc<Ctx>, usize);
+            impl Drop for Closer { fn drop(&mut self) { let w = { let mut st = self.0.streams[self.1].st.lock().unwrap(); desync::verif::log("api", "CLOSE", self.1, String::new()); st.1 = true; st.2.take() }; if let Some(w) = w { w.wake(); } } }
+            let closer = ctx.prog.callers.iter().flatten().find_map(|o| match o { Op::ChainClose(a, b) if *a == *k => Some(Closer(ctx.clone(), *b)), _ => None });
             desync::pipe_in(obj, HStream { core: ctx.streams[*k].clone() }, move |p: &mut Payload, item: u64| {
+                let _owned = &closer;
                 pipe_process_fut(c2.clone(), k2, q2, p, item, ())
             });
             return;
